@@ -5,11 +5,11 @@ CONSTANT Tier
 Seqs(S, n) == [1..n -> S]
 
 Heavy == {"LDN", "UDN", "LDN_UO", "UDN_UO", "CDN_UO", "CDN"}
-NXs(t) == IF Tier = "quick" THEN {1, 2}
+NXs(t) == IF Tier \in {"quick", "small"} THEN {1, 2}
           ELSE IF t \in Heavy THEN {1, 2} ELSE {1, 2, 3}
-NYs(t) == IF Tier = "quick" THEN (IF t \in Heavy \ {"CDN"} THEN {1, 3} ELSE {1, 2, 4})
+NYs(t) == IF Tier = "small" THEN (IF t \in Heavy THEN {2} ELSE {1, 2}) ELSE IF Tier = "quick" THEN (IF t \in Heavy \ {"CDN"} THEN {1, 3} ELSE {1, 2, 4})
           ELSE IF t \in Heavy THEN {1, 2, 5} ELSE {1, 2, 5, 11}
-GSs(t) == IF Tier = "quick" THEN (IF t \in Heavy \ {"CDN"} THEN {0, 1} ELSE {0, 2})
+GSs(t) == IF Tier = "small" THEN {0, 1} ELSE IF Tier = "quick" THEN (IF t \in Heavy \ {"CDN"} THEN {0, 1} ELSE {0, 2})
           ELSE IF t \in Heavy \ {"CDN", "CDN_UO"} THEN {0, 2} ELSE {0, 1, 2}
 
 \* nested existentials instead of one big set of records (TLC enumerates these cheaply)
